@@ -1728,7 +1728,7 @@ class TrajectoryStore:
                 elif data is not None:
                     val = getattr(data, name)
 
-                self._write_to_nc_var(var, index, name, field, val)
+                self._write_to_nc_var(var, index, name, field, val, nc_file.species)
                 nc_file.traj_var[0][index] = index
 
     def _write_to_nc_var(
@@ -1738,8 +1738,13 @@ class TrajectoryStore:
         name: str,
         field: FieldMetadata,
         val: Any,
+        species: list[Species] | None = None,
     ) -> None:
-        """Write a value to a NetCDF variable at the given index."""
+        """Write a value to a NetCDF variable at the given index.
+
+        The `species` list gives the species in the NetCDF file's species
+        dimension, in order: a species-indexed value is stored in the slot of
+        its species in *this* list (which is also how it is read back)."""
 
         # Handle missing values.
         if val is None:
@@ -1753,6 +1758,14 @@ class TrajectoryStore:
         # variable length types of the appropriate base type.
         has_sp = Dimension.SPECIES in field.dimensions
         has_tm = Dimension.THRUST_MODE in field.dimensions
+        if has_sp:
+            species = species if species is not None else []
+            missing = [sp.name for sp in val.keys() if sp not in species]
+            if missing:
+                raise ValueError(
+                    f'Data field "{name}" at index {index} has species {missing} '
+                    f'that are not in the species dimension of the NetCDF file'
+                )
         match (has_sp, has_tm):
             case (False, False):
                 # float, np.ndarray
@@ -1763,12 +1776,12 @@ class TrajectoryStore:
                     var[index, ti] = val[tm]
             case (True, False):
                 # SpeciesValues[float], SpeciesValues[np.ndarray]
-                for si, sp in enumerate(Species):
+                for si, sp in enumerate(species):
                     if sp in val:
                         var[index, si] = val[sp]
             case (True, True):
                 # SpeciesValues[ThrustModeValues]
-                for si, sp in enumerate(Species):
+                for si, sp in enumerate(species):
                     for ti, tm in enumerate(ThrustMode):
                         if sp in val and tm in val[sp]:
                             var[index, si, ti] = val[sp][tm]
